@@ -605,7 +605,9 @@ def run_kani(h, playback=False):
     scratch = os.path.join(GEN, 'kani-' + (feat or 'default'))
     os.makedirs(scratch, exist_ok=True)
     env = dict(os.environ, KANI_SCRATCH=scratch, KANI_TIMEOUT=str(h.get('timeout', 2400)))
-    cmd = [os.path.join(VERIF, 'tools', 'run_kani.sh'), h['harness'], feat]
+    # fully qualified name + --exact: `--harness c20_postcard_member` would also select c20_postcard_member_short
+    full = ('verif_kani::codecs::' if h['harness'].startswith('c20_') else 'verif_kani::') + h['harness']
+    cmd = [os.path.join(VERIF, 'tools', 'run_kani.sh'), full, feat, '--exact']
     if playback:
         cmd += ['-Z', 'concrete-playback', '--concrete-playback=print']
     t0 = time.time()
@@ -627,7 +629,7 @@ def run_kani(h, playback=False):
         pb = out[i:i + 6000] if i >= 0 else ''
     return dict(harness=h['harness'], status=status, failed_checks=failed[:10], checks=int(m.group(2)) if m else 0,
                 solver_s=float(vt.group(1)) if vt else None, wall=round(wall, 1), playback=pb,
-                cmd='KANI_SCRATCH=<scratch copy of $REPO> tools/run_kani.sh %s %s' % (h['harness'], feat), tail=out[-1500:] if status == 'error' else '')
+                cmd='KANI_SCRATCH=<scratch copy of $REPO> tools/run_kani.sh %s %s --exact' % (full, feat), tail=out[-1500:] if status == 'error' else '')
 
 
 def kani_phase(pid, tier, units):
@@ -642,8 +644,8 @@ def kani_phase(pid, tier, units):
                 if u['unit'] == h.get('unit') and u['status'] == 'undecided' and any(x.startswith(('front-end', 'extraction', 'verus produced')) for x in u['undecided']):
                     chosen.append((h, 'fallback'))
                     break
-    results = []
-    for h, why in chosen:
+    def one(hw):
+        h, why = hw
         r = run_kani(h)
         if r['status'] == 'failed':
             r2 = run_kani(h, playback=True)
@@ -652,7 +654,17 @@ def kani_phase(pid, tier, units):
         r['kind'] = h['kind']
         r['bound'] = h.get('bound')
         r['label'] = h['label']
-        results.append(r)
+        return r
+
+    # one scratch copy (and cargo target dir) per feature set: the groups run in parallel, the harnesses of a group in sequence
+    groups = {}
+    for hw in chosen:
+        groups.setdefault(hw[0].get('features', ''), []).append(hw)
+    with concurrent.futures.ThreadPoolExecutor(max_workers=max(1, len(groups))) as ex:
+        parts = list(ex.map(lambda g: [one(hw) for hw in g], groups.values()))
+    order = {id(hw[0]): i for i, hw in enumerate(chosen)}
+    results = [r for part in parts for r in part]
+    results.sort(key=lambda r: [i for i, hw in enumerate(chosen) if hw[0]['harness'] == r['harness']][0])
     return results
 
 
